@@ -19,7 +19,7 @@ RULE = ("tables, not datasets: a lookup metric returns a prescribed value for ea
         "to_overall<=between_groups inequality. non-trivial = table not constant; distinct = distinct table descriptors")
 ASSUMPTIONS = ["table entries are drawn from a dyadic palette (selected by VERIF_SEED); non-scalar metric cells are not explored",
                "for sign-mixed tables the to_overall ratio of the implementation follows '1/r if r>1 else r' (known finding F12)"]
-CLASSES = ["second_metric_with_nan", "zero_denominator", "all_equal", "nan_group", "control_strata", "empty_stratum", "negative_values_thorough",
+CLASSES = ["integer_valued_metric", "second_metric_with_nan", "zero_denominator", "all_equal", "nan_group", "control_strata", "empty_stratum", "negative_values_thorough",
            "mean_metric_dataset"]
 
 PALETTES = [(0.0, 0.5, 1.0, 2.0), (0.0, 0.25, 1.0, 4.0), (0.0, 1.0, 3.0, 0.5), (0.0, 0.75, 1.0, 1.5)]
@@ -162,6 +162,16 @@ def run_case(case):
                     V.append(viol("C02:errors:raise!=coerce", "%s: raise=%r coerce=%r groups=%r overall=%r" % (
                         k, per_err["raise"][k], per_err["coerce"][k], gv, ov)))
             outcome.append([None if math.isnan(float(v)) else float(v) for v in per_err["raise"].values()])
+        # integer-valued metric (Python ints in every cell, e.g. a count): the aggregates must be the same numbers
+        if mode == "plain" and all(float(v).is_integer() for v in list(gv) + [ov]):
+            out["classes"].add("integer_valued_metric")
+            ti = {k: int(v) for k, v in table.items()}
+            for form in ("callable", "dict"):
+                out["evals"] += 1
+                mf = MetricFrame(metrics=_mk_lookup(ti) if form == "callable" else {"m": _mk_lookup(ti)}, y_true=ids, y_pred=ids, sensitive_features=sfeat)
+                for err in ("raise", "coerce"):
+                    obs = _observe(mf, form, err)
+                    _compare(V, "int-%s/%s" % (form, err), obs, R, "INTEGER cells groups=%r overall=%r" % (gv, ov), neg, nonneg=min(list(gv) + [ov]) >= 0)
         # two metrics in one frame: a NaN cell of metric 'n' on a NON-empty group must not influence the aggregates of metric 'm'
         if mode == "plain" and G >= 2:
             out["classes"].add("second_metric_with_nan")
